@@ -141,6 +141,15 @@ fn eval_random(_ctx: &Ctx, case: &RandomCase) -> Verdict {
         ensure!(*g >= 0.0, "project of a non-negative spectrum has negative cell {i} = {g}");
     }
     ensure!(close(got.sum(), spec.sum(), tol, scale), "projection {shape:?} -> {to:?} changed the mass: {} -> {}", spec.sum(), got.sum());
+    // homogeneity: scaling the input by a power of two scales the output exactly (also for tiny weights)
+    for e in [-70i32, 40] {
+        let c = 2f64.powi(e);
+        let scaled = Spec::new(shape.clone(), spec.values.iter().map(|v| v * c).collect());
+        let ps = must_project(&scaled, &to)?;
+        for (i, (g, w)) in ps.values.iter().zip(&got.values).enumerate() {
+            ensure!(*g == *w * c, "project(2^{e} * x) differs from 2^{e} * project(x) at cell {i}: {g:e} vs {:e} (shape {shape:?} -> {to:?})", *w * c);
+        }
+    }
     // identity
     let id = must_project(spec, shape)?;
     for (i, (g, w)) in id.values.iter().zip(&spec.values).enumerate() {
@@ -217,13 +226,14 @@ fn overflow_start(n: usize) -> Option<usize> {
     (1..=n / 2).find(|&m| ln_binom(n, m) > limit)
 }
 
-const EDGES: [usize; 16] = [169, 170, 171, 172, 340, 341, 342, 600, 1028, 1029, 1030, 1031, 1500, 2047, 2048, 2400];
+const EDGES: [usize; 21] = [169, 170, 171, 172, 255, 256, 340, 341, 342, 600, 1023, 1024, 1028, 1029, 1030, 1031, 1500, 2047, 2048, 2400, 4096];
 
 fn large_strategy(max_n: usize) -> impl Strategy<Value = LargeCase> {
     (
         prop_oneof![
-            3 => any::<u16>().prop_map(|d| EDGES[pick_idx(d, EDGES.len())]),
-            1 => 173usize..2400,
+            6 => any::<u16>().prop_map(|d| EDGES[pick_idx(d, EDGES.len())]),
+            2 => 173usize..2400,
+            1 => prop_oneof![Just(4095usize), Just(4096), Just(4097), Just(8191), Just(8192)],
             1 => 2000usize..=max_n.max(2001),
         ],
         prop_oneof![1 => Just(0u16), 1 => Just(u16::MAX), 6 => any::<u16>()],
@@ -478,10 +488,10 @@ pub fn check(ctx: &Ctx) -> Check {
         }),
         Box::new(RandomPart {
             name: "large-1d",
-            rule: "one-axis sizes around the implementation's edges (169..172, 340..342, 1028..1031, 2047/2048, up to 2400; thorough up to 6000 chromosomes), sparse inputs, targets 1..n and (35%) targets at the edge of the band where C(n, m) overflows f64: finite, agrees with the ratio-recurrence oracle to 1e-8, mass preserved; non-trivial = m < n",
+            rule: "one-axis sizes around the implementation's edges (169..172, 255/256, 340..342, 1023/1024, 1028..1031, 2047/2048, 4095..4097; thorough also 8191/8192 and random sizes up to 8200 chromosomes), sparse inputs, targets 1..n and (35%) targets at the edge of the band where C(n, m) overflows f64: finite, agrees with the ratio-recurrence oracle to 1e-8, mass preserved; non-trivial = m < n",
             cases: ctx.tier.pick(96, 3000),
             strategy: {
-                let max_n = ctx.tier.pick(2400usize, 6000);
+                let max_n = ctx.tier.pick(4100usize, 8200);
                 Box::new(move || large_strategy(max_n).boxed())
             },
             eval: Box::new(eval_large),
